@@ -129,6 +129,17 @@ type vfbWorld struct {
 	blobs   map[string]*vfbBlob // "x", "y"
 	poll    string              // "", "down", "timeout" for the next poll
 	only    string              // blob mode: the single blob the endpoint names
+	salt    int                 // choice of the members of the classes "empty" and "invalid" in this sequence
+	nth     int                 // symbols applied in this sequence
+	docs    []string            // members stored in this sequence
+	st      *vfStats
+}
+
+func vfbDocType(d vfDoc) string {
+	if d.JSON {
+		return "application/json"
+	}
+	return "application/yaml"
 }
 
 // keys under which logical blob l is stored. An endpoint naming a single blob uses URL.Path - which
@@ -166,6 +177,7 @@ func (w *vfbWorld) del(l string) error {
 
 func (w *vfbWorld) apply(sym int) error {
 	w.poll = ""
+	w.nth++
 	newContent := func(l string) (string, string, string) {
 		w.version++
 		id := fmt.Sprintf("%s%s#%d", w.tag, l, w.version)
@@ -188,10 +200,18 @@ func (w *vfbWorld) apply(sym int) error {
 		}
 		return w.put("x", b.kind, b.content, b.data, b.ctype)
 	case vfbEmptyX:
-		return w.put("x", vfEmpty, "", "", "application/yaml")
+		prev := ""
+		if b := w.blobs["x"]; b != nil && b.exists && b.kind == vfValid {
+			prev = b.data
+		}
+		d := vfEmptyDoc(w.salt+w.nth, prev, w.st)
+		w.docs = append(w.docs, "empty:"+d.Name)
+		return w.put("x", vfEmpty, "", d.Data, vfbDocType(d))
 	case vfbInvalidX:
 		w.version++
-		return w.put("x", vfInvalid, "", vfInvalidDocs[w.version%len(vfInvalidDocs)], "application/yaml")
+		d := vfInvalidDoc(w.salt+w.nth, w.st)
+		w.docs = append(w.docs, "invalid:"+d.Name)
+		return w.put("x", vfInvalid, "", d.Data, vfbDocType(d))
 	case vfbUnsupX:
 		return w.put("x", vfUnasserted, "", vfRuleSetYAML("unsupported"), "text/plain")
 	case vfbDelX:
@@ -267,6 +287,8 @@ func (w *vfbWorld) reset() {
 	w.blobs = map[string]*vfbBlob{}
 	w.version = 0
 	w.poll = ""
+	w.nth = 0
+	w.docs = nil
 }
 
 // vfbClassifier returns the Classify hook for one sequence; it needs the oracle to know which Source
@@ -359,12 +381,12 @@ func TestC18(t *testing.T) {
 	r := core.Begin("C18", "fault_enumeration")
 	r.Rule("cloud_blob: exhaustive sequences (length <=3 quick / <=4 thorough, plus a seeded sample of longer ones) over 16 symbols (blob x: put new/same/empty/invalid/unsupported type, delete; " +
 		"blob y: put new, delete; two blobs changed before one poll: new+new, delete+new, new+delete; poll while connections are dropped / refused; poll running into its deadline; " +
-		"failure of the next processor call / of the second processor call of a poll); each symbol mutates the gofakes3 bucket and runs " +
+		"failure of the next processor call / of the second processor call of a poll; the empty and the invalid contents rotate over doc_members_empty / doc_members_invalid as a function of the sequence); each symbol mutates the gofakes3 bucket and runs " +
 		"provider.watchChanges for the bucket endpoint; the same with an endpoint naming a single blob; plus sequences against the real scheduler loop. Oracle: vfDecide per blob and poll, " +
 		"active rule sets = latest valid content of existing blobs at the end. Non-trivial: >=2 successful processor calls.")
 	r.Assume("S3 is gofakes3 on loopback (the in-module fake the repository's tests use); network failure = the fake drops the connection / the poll's context deadline has elapsed",
 		"AWS_MAX_ATTEMPTS=1 so that the SDK does not retry with back-off inside one poll",
-		"outcome mapping: dropped connection/timeout = bucket still exists (previous kept); object deleted = gone (unloaded); empty object = unloaded; unsupported content type not asserted")
+		"outcome mapping: dropped connection/timeout = bucket still exists (previous kept); object deleted = gone (unloaded); empty object (no rule set in it) = unloaded; unsupported content type not asserted")
 
 	os.Setenv("AWS_ACCESS_KEY_ID", "test")
 	os.Setenv("AWS_SECRET_ACCESS_KEY", "test")
@@ -392,6 +414,7 @@ func TestC18(t *testing.T) {
 	if !ok {
 		r.End()
 	}
+	vfInitDocs(r)
 	if prov, mode, names, _, ok := vfReplayCase(r); ok {
 		if seq, known := vfSymbols(names, vfbNames[:]); prov == "cloud_blob" && known {
 			st := &vfStats{}
@@ -633,6 +656,7 @@ func vfbDirect(r *core.Run, backend *s3mem.Backend, gate *vfbGate, srvURL string
 
 func vfbRunDirect(r *core.Run, w *vfbWorld, ep *ruleSetEndpoint, fails *vfbFailures, mode string, seq []int, st *vfStats) (int, bool) {
 	w.reset()
+	w.salt, w.st = vfDocSalt(seq, len(w.only)), st
 	rec := vfNewRecorder()
 	o := vfNewOracle(st)
 	classify := vfbClassifier(o)
@@ -694,7 +718,7 @@ func vfbRunDirect(r *core.Run, w *vfbWorld, ep *ruleSetEndpoint, fails *vfbFailu
 		truth[l] = w.truth(l)
 	}
 	o.final(step+1, truth, rec.snapshot(), &vfStep{Classify: classify, Generic: vfGenericBlob, Ctx: ctxInfo})
-	bad := o.report(r, "cloud_blob", mode, vfbSeqNames(seq), "")
+	bad := o.report(r, "cloud_blob", mode, vfbSeqNames(seq), fmt.Sprintf(" docs=%v", w.docs))
 	return o.nOK, bad
 }
 
@@ -807,7 +831,7 @@ func vfbLoop(r *core.Run, backend *s3mem.Backend, gate *vfbGate, srvURL string) 
 func vfbRunLoop(r *core.Run, backend *s3mem.Backend, gate *vfbGate, srvURL string, n int, seq []int, st *vfStats) (int, bool) {
 	bucket := fmt.Sprintf("vf_loop_%d", n)
 	_ = backend.CreateBucket(bucket)
-	w := &vfbWorld{backend: backend, gate: gate, bucket: bucket, blobs: map[string]*vfbBlob{}}
+	w := &vfbWorld{backend: backend, gate: gate, bucket: bucket, blobs: map[string]*vfbBlob{}, salt: vfDocSalt(seq, 2), st: st}
 	rec := vfNewRecorder()
 	o := vfNewOracle(st)
 	classify := vfbClassifier(o)
@@ -888,6 +912,6 @@ func vfbRunLoop(r *core.Run, backend *s3mem.Backend, gate *vfbGate, srvURL strin
 	}
 	truth := map[string]vfState{"x": w.truth("x"), "y": w.truth("y")}
 	o.final(step+1, truth, rec.snapshot(), &vfStep{Classify: classify, Generic: vfGenericBlob})
-	o.report(r, "cloud_blob", "loop", vfbSeqNames(seq), "")
+	o.report(r, "cloud_blob", "loop", vfbSeqNames(seq), fmt.Sprintf(" docs=%v", w.docs))
 	return o.nOK, true
 }
